@@ -202,9 +202,10 @@ func (b *UnsafeLinkBuffer) Peek(n int) (p []byte, err error) {
 
 	// multiple nodes
 
-	// try to make use of the cap of b.cachePeek, if can't, free it.
+	// try to make use of the cap of b.cachePeek, if can't, retire it.
+	// It can't be freed here: a slice returned by an earlier Peek stays valid until Release.
 	if b.cachePeek != nil && cap(b.cachePeek) < n {
-		free(b.cachePeek)
+		b.caches = append(b.caches, b.cachePeek)
 		b.cachePeek = nil
 	}
 	if b.cachePeek == nil {
